@@ -263,7 +263,12 @@ impl<'a> Gen<'a> {
                 3 => Act::Drop { dst: Dst::G(self.glob()) },
                 4 => {
                     if depth == 0 {
-                        Act::New { dst: if self.rng.chance(1, 2) { Dst::G(self.glob()) } else { Dst::Discard }, spec: Box::new(Spec::default()) }
+                        let dst = if self.rng.chance(1, 2) { Dst::G(self.glob()) } else { Dst::Discard };
+                        if self.rng.chance(1, 3) {
+                            Act::NewCyclic { dst, spec: Box::new(Spec::default()), script: vec![], keep: self.rng.idx(4) as u8 }
+                        } else {
+                            Act::New { dst, spec: Box::new(Spec::default()) }
+                        }
                     } else {
                         Act::Query
                     }
@@ -312,7 +317,14 @@ impl<'a> Gen<'a> {
             for _ in 0..n {
                 script.push(match self.rng.idx(12) {
                     0 => Act::Drop { dst: Dst::G(self.glob()) },
-                    1 => Act::New { dst: if self.rng.chance(1, 2) { Dst::G(self.glob()) } else { Dst::Discard }, spec: Box::new(Spec::default()) },
+                    1 => {
+                        let dst = if self.rng.chance(1, 2) { Dst::G(self.glob()) } else { Dst::Discard };
+                        if self.rng.chance(1, 3) {
+                            Act::NewCyclic { dst, spec: Box::new(Spec::default()), script: vec![], keep: self.rng.idx(4) as u8 }
+                        } else {
+                            Act::New { dst, spec: Box::new(Spec::default()) }
+                        }
+                    }
                     2 | 3 => Act::Upgrade { src: WLoc::Cap, dst: if self.rng.chance(1, 2) { Dst::G(self.glob()) } else { Dst::Discard } },
                     4 => Act::Clean { c: self.rng.idx(NC) as u8 },
                     5 => Act::Collect,
